@@ -356,6 +356,7 @@ func runCrashEnum(liveness bool) func(u *Unit) {
 				cs := *prog
 				f.Task, f.Op, f.Match = "subject", p.op, p.kind
 				cs.Faults = []sim.FaultSpec{f}
+				curCase = &cs
 				cs.Note = fmt.Sprintf("stage%02d", p.stage)
 				t0 := time.Now()
 				res := Execute(&cs)
@@ -420,7 +421,7 @@ func replayCrash(liveness bool) func(payload json.RawMessage) []Violation {
 
 func init() {
 	Register(&CheckDef{ID: "C08", Level: "fault_enumeration",
-		Rule: "each unit = one sampled program (new store, new root, splits, updates/removes, out-of-node values, two stores; with an earlier committed transaction); a profiling run lists every durable mutation (file create/write/remove/mkdir, registry block write, transaction-log append) the subject performs inside Commit; then one run per mutation and crash variant: process dies before it, right after it, or in the middle of it (registry block torn at every 512-byte boundary and 3 arbitrary lengths; files torn at 4 lengths). After the crash: cold restart, then transactions at +0, +6 min, +75 min, +2 h 10 min, +5 h of simulated time (advanced, not waited) with an observer after each: stores readable, jointly S0 or S0+W, monotone, Count consistent, unrelated store writable. distinct_nontrivial = distinct (program, mutation, crash variant) whose crash fired",
+		Rule:    "each unit = one sampled program (new store, new root, splits, updates/removes, out-of-node values, two stores; with an earlier committed transaction); a profiling run lists every durable mutation (file create/write/remove/mkdir, registry block write, transaction-log append) the subject performs inside Commit; then one run per mutation and crash variant: process dies before it, right after it, or in the middle of it (registry block torn at every 512-byte boundary and 3 arbitrary lengths; files torn at 4 lengths). After the crash: cold restart, then transactions at +0, +6 min, +75 min, +2 h 10 min, +5 h of simulated time (advanced, not waited) with an observer after each: stores readable, jointly S0 or S0+W, monotone, Count consistent, unrelated store writable. distinct_nontrivial = distinct (program, mutation, crash variant) whose crash fired",
 		Exhaust: "per sampled program: every durable mutation inside Commit x {before, after, torn lengths}; quick tier thins torn variants of commits with more than 60 mutations",
 		Units: func(tier string) int {
 			if tier == "thorough" {
@@ -429,7 +430,7 @@ func init() {
 			return 16
 		},
 		Run: runCrashEnum(false), Replay: replayCrash(false), Real: realComponents, Stub: stubComponents,
-		Assume: append([]string{"a crash is simulated inside one OS process: the node's tasks are never resumed, caches/locks/globals are dropped, only files survive; file system metadata operations are atomic and ordered (no lost directory entries)", "recovery is given transactions at the documented waiting periods with time advanced"}, commonAssumptions...),
+		Assume:    append([]string{"a crash is simulated inside one OS process: the node's tasks are never resumed, caches/locks/globals are dropped, only files survive; file system metadata operations are atomic and ordered (no lost directory entries)", "recovery is given transactions at the documented waiting periods with time advanced"}, commonAssumptions...),
 		UnitLimit: 1200e9})
 	Register(&CheckDef{ID: "C09", Level: "exploration",
 		Rule: "crash points sampled (1 in 7, rotating) from C08's space for sampled programs; after the crash and a cold restart, later transactions run at +0, +6 min, +75 min, +2 h 10 min, +5 h; at the end (8.6 simulated hours) no transaction or priority log of the crashed transaction may remain and a writer touching the same keys must commit. distinct_nontrivial = distinct (program, mutation, crash variant) whose crash fired",
@@ -440,6 +441,6 @@ func init() {
 			return 32
 		},
 		Run: runCrashEnum(true), Replay: replayCrash(true), Real: realComponents, Stub: stubComponents,
-		Assume: append([]string{"standalone mode (in-memory L2: locks die with the process); clustered/Redis mode not covered", "bounded liveness is stated in simulated hours with transactions flowing at each documented threshold"}, commonAssumptions...),
+		Assume:    append([]string{"standalone mode (in-memory L2: locks die with the process); clustered/Redis mode not covered", "bounded liveness is stated in simulated hours with transactions flowing at each documented threshold"}, commonAssumptions...),
 		UnitLimit: 1200e9})
 }
